@@ -96,14 +96,15 @@ def entry_spec():
     sp.models['TransactionEvaluator'] = Func(lambda I, a, k, n: Obj(I.fresh('evaluator', ObjS), 'Evaluator'))
     sp.models['ExpressionEvaluator'] = Func(lambda I, a, k, n: Obj(I.fresh('evaluator', ObjS), 'Evaluator'))
     sp.models['ExpressionContext'] = Func(lambda I, a, k, n: Obj(I.fresh('ectx', ObjS), 'ExpressionContext'))
-    sp.models['method:Obj:Evaluator.evaluate'] = Func(lambda I, a, k, n: (only_expression_error(I, 'evaluate'), Obj(I.fresh('value', ObjS)))[1])
+    sp.models['method:Obj:Evaluator.evaluate'] = Func(lambda I, a, k, n: (only_expression_error(I, 'evaluate'), Obj(I.fresh('value', ObjS), 'pyany'))[1])
     return sp
 
 
 def h_entry(name, nargs):
     def h(ctx):
         sp = entry_spec()
-        sp.inline |= {EP + 'evaluate_transaction', EP + 'evaluate'}
+        # entry points may delegate to one another: whichever they call is executed, not assumed
+        sp.inline |= {EP + n for n in ('evaluate_transaction', 'evaluate_transaction_ast', 'matches_transaction', 'evaluate', 'evaluate_ast', 'evaluate_filter')}
         I = Interp(ctx, sp)
         args = [Obj(ctx.fresh('arg%d' % i, ObjS)) for i in range(nargs)]
         if name in ('evaluate_transaction', 'matches_transaction', 'evaluate', 'evaluate_filter'):
